@@ -247,6 +247,10 @@ func (w *sellerWorld) observe(tr *vh.Transcript) {
 				w.mu.Lock()
 				added := w.added[strings.ToLower(ws.ID())]
 				w.mu.Unlock()
+				if mean, ok := st.actualHRGHS.GetHashrateAvgGHSCustom("mean"); ok {
+					// what the contract reports as its mean hashrate (C20: total work over the time since the fulfilment started)
+					tr.Out("est %s mean=%d", n, int64(mean+0.5))
+				}
 				tr.Out("acct %s target=%d gunder=%d rem=%d added=%d full=%s partial=%s conn=%s", n, int(st.deliveryTargetGHS), st.globalUnderDeliveryGHS.Load(),
 					int(ws.remainingCycleDuration()/time.Second), added, strings.Join(full, ","), strings.Join(part, ","), strings.Join(conn, ","))
 			}
